@@ -338,9 +338,32 @@ impl StatusClock {
                 Op::GitIndex { add } => {
                     if *add {
                         run(git(&repo).args(["add", "-A"]))?;
-                        index = wt.clone();
                     } else {
                         let _ = git(&repo).args(["update-index", "-q", "--refresh"]).output();
+                    }
+                    // What is staged now is read from the index itself: after the clock was stepped back `git add` can be
+                    // as blind to a same-size change as `git status` (and then the old blob stays staged).
+                    let listed = run(git(&repo).args(["ls-files", "-s"]))?;
+                    let blob = |c: &[u8]| gix::objs::compute_hash(gix::hash::Kind::Sha1, gix::objs::Kind::Blob, c).to_string();
+                    for f in 0..NFILES {
+                        let entry = listed.lines().find_map(|l| {
+                            let (meta, path) = l.split_once('\t')?;
+                            (path == name(f)).then(|| {
+                                let mut it = meta.split(' ');
+                                (it.next().unwrap_or("").to_string(), it.next().unwrap_or("").to_string())
+                            })
+                        });
+                        index[f] = match entry {
+                            None => FileState { content: None, exec: false, link: false },
+                            Some((mode, oid)) => {
+                                let (exec, link) = (mode == "100755", mode == "120000");
+                                let from = |st: &FileState| st.content.as_ref().filter(|c| st.link == link && blob(c) == oid).cloned();
+                                match from(&wt[f]).or_else(|| from(&index[f])) {
+                                    Some(c) => FileState { content: Some(c), exec, link },
+                                    None => return Err(format!("after [{log}] the index holds {mode} {oid} for {}, which is neither the worktree's nor the previously staged content", name(f))),
+                                }
+                            }
+                        };
                     }
                     set_mtime(&repo.join(".git/index"), floor(now), true);
                     im = floor(now);
